@@ -91,7 +91,32 @@ BODIES = [
     ('ifret', O('TRUE') + O('TRUE') + isa.IF(O('RETURN')) + O('FALSE'), True),
     ('empty', b'', False),
     ('eq', isa.push(b'ab') + O('DUP') + O('EQUAL'), True),
+    # leaves whose verdict depends on what the verifier configured for the
+    # run (slack thresholds, a register flag): judged under CONFIG below
+    ('ts-slack', isa.push((env.NOW0 + 100).to_bytes(4, 'big'))
+     + O('CHECK_TIMESTAMP'), False),
+    ('epoch-slack', isa.push((env.NOW0 + 5000).to_bytes(4, 'big'))
+     + O('CHECK_EPOCH'), False),
+    ('register', isa.push(bytes(range(32))) + O('DERIVE_SCALAR') + O('POP0')
+     + O('READ_CACHE_SIZE') + b'\x01x' + O('NOT'), False),
 ]
+# a verifier configuration under which the three leaves above flip
+CONFIG = {'ts_threshold': 10 ** 6, 'epoch_threshold': 10 ** 6, 1: False}
+CONFIG_CACHE = {'timestamp': env.NOW0 + 300}
+
+
+def run_configured(script: bytes):
+    """verdict of ONE script under CONFIG, through run_script (the entry
+    point that takes flags)"""
+    functions = env.mods()[0]
+    Beacon.log = []
+    env.Clock.now = env.NOW0
+    try:
+        _, stack, _ = functions.run_script(
+            script, dict(CONFIG_CACHE), {CID: Beacon()}, dict(CONFIG))
+        return list(stack.deque) == [b'\xff']
+    except BaseException:
+        return False
 
 
 def leaf_script(rng, leaf_id: bytes, pad_ok=True):
@@ -218,6 +243,18 @@ def judge_proof(ctx, tag, lock: bytes, unlock: bytes, leaf: bytes,
                       'leaf)', case, 1, [x.hex() for x in log])
         return False
     ctx.tab('leaf_verdict', want)
+    # the same under a non-default verifier configuration: what the run was
+    # given governs the committed leaf as it governs the leaf run on its own
+    ctx.evaluated()
+    own_c = run_configured(leaf)
+    via_c = run_configured(unlock + lock)
+    ctx.tab('leaf_verdict_configured', own_c)
+    if via_c is not own_c:
+        ctx.violation('committed-branch-verdict-differs', 'under a verifier '
+                      'configuration (slack thresholds, register flag) the '
+                      "unlock+lock verdict is not the leaf script's own "
+                      'verdict', dict(case, configured=True), own_c, via_c)
+        return False
     if nontrivial:
         ctx.mark_nontrivial(dg(tag, lock, unlock))
     return True
